@@ -272,7 +272,11 @@ func c10RespellProp(rt *rapid.T) {
 	if c10RespellPropK++; c10RespellPropK%499 == 1 {
 		cov.Sample("c10.equiv", c)
 	}
-	judge(rt, "c10.equiv", c10Check, c)
+	hl, ok := refLangOf(bip39.Language(lang))
+	if !ok {
+		hl = ref.English
+	}
+	judgeH(rt, "c10.equiv", c10Check, c, hl)
 }
 
 // FuzzC10 drives the same property coverage-guided (thorough tier): the fuzzer's bytes are
